@@ -156,9 +156,79 @@ def _must_reject(out, blob, key, kind, what, ctx):
     return False
 
 
+INFO_ATTR = {"image": "INFO_IMAGE", "audio": "INFO_AUDIO", "video": "INFO_VIDEO", "document": "INFO_DOCUM"}
+
+
+def _shared(case, out):
+    """one cipher object used by several threads at once (the library's callers create it once and call it from wherever media
+    arrives): every call must behave as if it ran alone.  The deterministic scheduler runs the calls as tasks that can be
+    preempted at every line and call inside mediacipher.py; each result is compared with the independent implementation."""
+    from ..kit import sched as SK
+    mc = MediaCipher()
+    s = SK.Scheduler(case.get("choices", []), ("protocol_media/mediacipher.py",), trace_lines=True, preempt=case.get("preempt"),
+                     max_steps=20000)
+    SK.SCHED = s
+    tasks = []
+    try:
+        def mk(ops):
+            def run():
+                res = []
+                for op in ops:
+                    kind = KINDS[op["kind"] % 4]
+                    key = hashlib.sha256(b"key%d" % op["keyseed"]).digest()
+                    pt = plaintext_of(op["n"], op["seed"])
+                    info = getattr(MediaCipher, INFO_ATTR[kind])
+                    try:
+                        if op["op"] == "enc":
+                            res.append(("ok", bytes(mc.encrypt(pt, key, info))))
+                        elif op["op"] == "dec":
+                            res.append(("ok", bytes(mc.decrypt(ref_encrypt(pt, key, kind), key, info))))
+                        elif op["op"] == "dec_wrong":
+                            # ciphertext of another key and another kind
+                            other = ref_encrypt(pt, hashlib.sha256(b"key%d" % (op["keyseed"] + 1)).digest(), KINDS[(op["kind"] + 1) % 4])
+                            res.append(("ok", bytes(mc.decrypt(other, key, info))))
+                    except Exception as e:
+                        res.append(("raised", type(e).__name__))
+                return res
+            return run
+        for i, ops in enumerate(case["tasks"]):
+            tasks.append(s.spawn("t%d" % i, mk(ops)))
+        state = s.run()
+        if state != "done" or s.overrun:
+            out.fail("shared", "shared:calls_do_not_finish", {"state": state, "blocked": [str(b) for b in s.blocked()]})
+            return out
+        for i, (t, ops) in enumerate(zip(tasks, case["tasks"])):
+            if t.exc is not None:
+                raise t.exc
+            for op, (st_, val) in zip(ops, t.result):
+                kind = KINDS[op["kind"] % 4]
+                key = hashlib.sha256(b"key%d" % op["keyseed"]).digest()
+                pt = plaintext_of(op["n"], op["seed"])
+                if op["op"] == "enc":
+                    if st_ != "ok":
+                        out.fail("shared", "shared:encrypt_raises_beside_another_call:%s" % val, {"task": i})
+                    elif val != ref_encrypt(pt, key, kind):
+                        out.fail("shared", "shared:ciphertext_differs_from_reference_beside_another_call", {"task": i, "n": op["n"]})
+                elif op["op"] == "dec":
+                    if st_ != "ok":
+                        out.fail("shared", "shared:untouched_ciphertext_rejected_beside_another_call:%s" % val, {"task": i})
+                    elif val != pt:
+                        out.fail("shared", "shared:different_plaintext_beside_another_call", {"task": i})
+                elif op["op"] == "dec_wrong" and st_ == "ok":
+                    out.fail("shared", "shared:wrong_key_and_kind_accepted_beside_another_call", {"task": i})
+        out.label("shared", "switches>0" if s.switches > 1 else "switches=0")
+        out.info = {"nt": s.switches > 1}
+        return out
+    finally:
+        s.kill()
+        SK.SCHED = None
+
+
 def run_case(case):
     out = Outcome()
     sub = case["sub"]
+    if sub == "shared":
+        return _shared(case, out)
     key = key_of(case)
     kind = KINDS[case.get("kind", 0) % 4]
     n = case.get("n", 0)
@@ -247,6 +317,8 @@ def run_case(case):
 
 
 def nontrivial(case, out):
+    if case["sub"] == "shared":
+        return bool(out.info and out.info.get("nt"))
     if case["sub"] == "rt":
         return case.get("n", 0) % 16 == 0
     return True
@@ -264,6 +336,15 @@ def _enum_tamper():
     for n in (0, 1, 15, 16, 17, 31, 32, 33, 48):
         for kind in range(4):
             yield {"sub": "tamper_all", "n": n, "kind": kind, "keyseed": n % 3, "seed": 1 if n % 2 else 3}
+
+
+def _enum_shared():
+    """context bound 1, complete for two calls: one preemption at every yield point"""
+    pairs = [("enc", "enc"), ("enc", "dec"), ("dec", "dec"), ("dec", "dec_wrong"), ("enc", "dec_wrong"), ("dec_wrong", "dec")]
+    for a, b in pairs:
+        for k in range(0, 46):
+            yield {"sub": "shared", "preempt": [[k, 0]],
+                   "tasks": [[{"op": a, "n": 20, "seed": 3, "kind": 0, "keyseed": 1}], [{"op": b, "n": 33, "seed": 4, "kind": 1, "keyseed": 2}]]}
 
 
 def plan(tier):
@@ -287,11 +368,18 @@ def plan(tier):
         st.builds(lambda n, k, key, o: {"sub": "wrongkind", "n": n, "kind": k, "key": key, "other": o},
                   small, st.integers(0, 3), keys, st.integers(0, 2)),
     )
+    op = st.builds(lambda o, n, sd, k, ks: {"op": o, "n": n, "seed": sd, "kind": k, "keyseed": ks},
+                   st.sampled_from(["enc", "dec", "dec_wrong"]), st.sampled_from([0, 1, 16, 20, 33, 4096]), st.integers(0, 9),
+                   st.integers(0, 3), st.integers(0, 5))
+    shared = st.builds(lambda tasks, pre: {"sub": "shared", "tasks": tasks, "preempt": pre},
+                       st.lists(st.lists(op, min_size=1, max_size=2), min_size=2, max_size=3),
+                       st.lists(st.tuples(st.integers(0, 75), st.integers(0, 2)).map(list), min_size=1, max_size=3))
     return {
         "shards": 16,
-        "enumerations": [("lengths_0_64", _enum_rt), ("tamper_positions", _enum_tamper)],
-        "exhaustive": ["lengths_0_64", "tamper_positions"],
-        "strategies": [("roundtrip", rt, 400 if quick else 6000), ("tamper", tam, 600 if quick else 10000)],
+        "enumerations": [("lengths_0_64", _enum_rt), ("tamper_positions", _enum_tamper), ("shared_one_preemption", _enum_shared)],
+        "exhaustive": ["lengths_0_64", "tamper_positions", "shared_one_preemption"],
+        "strategies": [("roundtrip", rt, 400 if quick else 6000), ("tamper", tam, 600 if quick else 10000),
+                       ("shared_object", shared, 300 if quick else 4000)],
         "shrink": "hypothesis",
         "budget_s": 120 if quick else 1200,
     }
